@@ -157,8 +157,9 @@ def _check_arms(ctx, eng, paths, cv, driver):
                 ctx.fail("C08/C14: the worker probes the destination of a special file", str(names))
                 continue
             # the fact the lemmas are about is "something exists at the destination", whichever probe the code uses
-            existed = fs_fact("exists", "op_to")
-            p.pc = p.pc + fs_axioms("op_to") + [z3.Implies(ALIAS, existed)]
+            # "something is there": the entry itself (lstat) -- a dangling symbolic link at the destination is an entry
+            existed = fs_fact("lexists", "op_to")
+            p.pc = p.pc + fs_axioms("op_to") + [z3.Implies(ALIAS, fs_fact("exists", "op_to"))]
             # C03: the entry at the destination may be the source itself under another spelling: removing it deletes the source
             if rm:
                 ctx.lemma(eng, "C03: the special-file arm never removes the destination entry when it designates the source itself (another spelling of the same node)",
